@@ -331,6 +331,21 @@ class Theory:
                                              self.cmp(fn, SV.idx(A_, u_), SV.idx(Bq, o_ + u_ - t))),
                              patterns=[SV.idx(A_, u_)]),
                    [self.gap_ok(A_, Bq, fn, t, x_, o_)])
+        # pref_eq(R, B): R is a prefix of B ; gap_eq(A,B,t,x,o): A[t:x] equals B[o : o+x-t]   (pointwise)
+        Rq = z3.Const('Rq', SV.sort)
+        self.pref_eq = f('pref_eq', SV.sort, SV.sort, B)
+        self.axiom('pref_eq_def', [Rq, Bq],
+                   self.pref_eq(Rq, Bq) == z3.And(
+                       SV.len(Rq) <= SV.len(Bq),
+                       z3.ForAll([u_], z3.Implies(z3.And(0 <= u_, u_ < SV.len(Rq)), SV.idx(Rq, u_) == SV.idx(Bq, u_)),
+                                 patterns=[SV.idx(Rq, u_)])),
+                   [self.pref_eq(Rq, Bq)])
+        self.gap_eq = f('gap_eq', SV.sort, SV.sort, I, I, I, B)
+        self.axiom('gap_eq_def', [A_, Bq, t, x_, o_],
+                   self.gap_eq(A_, Bq, t, x_, o_) ==
+                   z3.ForAll([u_], z3.Implies(z3.And(t <= u_, u_ < x_), SV.idx(A_, u_) == SV.idx(Bq, o_ + u_ - t)),
+                             patterns=[SV.idx(A_, u_)]),
+                   [self.gap_eq(A_, Bq, t, x_, o_)])
         self.al = f('al', SV.sort, SV.sort, SE.sort, self.Fn, B)
         self.al_step = f('al_step', SV.sort, SV.sort, self.Fn, I, I, E, B)   # (A,B,f,take,outlen,e)
         ol = z3.Int('ol')
@@ -338,6 +353,7 @@ class Theory:
         self.axiom('al_step_def', [A_, Bq, fn, t, ol, e],
                    self.al_step(A_, Bq, fn, t, ol, e) == z3.And(
                        t <= self.e_key(e),
+                       ol + self.e_key(e) - t <= SV.len(Bq),
                        self.gap_ok(A_, Bq, fn, t, self.e_key(e), ol),
                        z3.Or(op(e) == O['addrange'], op(e) == O['removerange']),
                        z3.Implies(op(e) == O['addrange'],
@@ -358,6 +374,21 @@ class Theory:
                        self.gap_ok(A_, Bq, fn, self.rtake(A_, D), SV.len(A_), SV.len(self.rout(A_, D))),
                        SV.len(self.rout(A_, D)) + SV.len(A_) - self.rtake(A_, D) == SV.len(Bq)),
                    [self.aligned(A_, Bq, D, fn)])
+
+        # ---- table contracts on differs / predicates (DESIGN 3, `Differ`) ----
+        self.ground('apply_v_empty', z3.ForAll([v], self.apply_v(v, SE.empty) == v, patterns=[self.apply_v(v, SE.empty)]))
+        self.good_differ = f('good_differ', self.Fn, B)
+        pth = z3.Const('pth', self.Path)
+        self.axiom('good_differ_use', [fn, v, w, pth],
+                   z3.Implies(self.good_differ(fn), self.apply_v(v, self.differ(fn, v, w, pth)) == w),
+                   [self.differ(fn, v, w, pth)])
+        self.differs_ok = z3.Const('differs_ok', B)
+        self.axiom('differs_ok_use', [pth], z3.Implies(self.differs_ok, self.good_differ(self.differs_at(pth))),
+                   [self.differs_at(pth)])
+        self.pred_exact = f('pred_exact', self.Fn, self.Path, B)
+        self.axiom('pred_exact_use', [fn, pth, v, w],
+                   z3.Implies(z3.And(self.pred_exact(fn, pth), self.is_atomic(v, pth), self.cmp(fn, v, w)), v == w),
+                   [[self.cmp(fn, v, w), self.is_atomic(v, pth)]])
 
         # ---- finite maps (dict with string keys) and key sets ----
         self.M = z3.DeclareSort('M')
